@@ -171,6 +171,9 @@ def pts_preset(tier):
         for c in cnts:
             for n in (0, 1, B // 8 - cs // 8 - 1, B // 8 - cs // 8, B // 8, B // 8 + 1):
                 pts.append((a, c, n))
+        # a carry into every bit of the length field
+        for k in range(11, cs):
+            pts.append((a, (1 << k) - B, B // 8 + 1))
     return pts
 
 
